@@ -48,3 +48,12 @@ Proof.
   unfold bytes_okb, bytes_ok, byte_okb. rewrite forallb_forall, Forall_forall.
   split; intros H x Hx; specialize (H x Hx); lia.
 Qed.
+
+Lemma take_n_length k : forall bs h t, take_n k bs = Some (h, t) -> (length t + k = length bs)%nat.
+Proof.
+  induction k as [|k IH]; intros bs h t H; cbn in H.
+  - injection H as <- <-. lia.
+  - destruct bs as [|b r]; [discriminate|]. destruct (take_n k r) as [[h' t']|] eqn:E; [|discriminate].
+    injection H as <- <-. specialize (IH _ _ _ E). cbn. lia.
+Qed.
+
